@@ -195,3 +195,38 @@ def gsplit_corr(ctx, rng, name='_GlobSplit.split parts (Unix rules)'):
     res = corr.corr_gsplit(pats, fs)
     ctx.corr(name, res)
     return res
+
+
+def mixed_abs_rel(ctx, rng, ntrees=3):
+    """Lists mixing absolute and relative patterns (root_dir != cwd): each pattern is interpreted on its own - the result
+    is the union of the single-pattern results whatever the order.  Returns the number of evaluations."""
+    import trees
+    from wcmatch import glob as Gm
+    n = 0
+    rels = ['*', 'sub/*', '*/*', 'a*', 'SUB/F*', '**/f*', 'other/', 'top', 'sub']
+    spec = [('sub', 'd', None), ('sub/f1', 'f', None), ('sub/f2', 'f', None), ('other', 'd', None), ('other/g', 'f', None), ('top', 'f', None), ('a1', 'f', None)]
+    for ti in range(ntrees):
+        sp = spec if ti == 0 else trees.random_spec(rng, size=rng.randint(5, 10))
+        with trees.Tree(sp) as T:
+            if has_dir_cycle(T.root):
+                continue
+            for _ in range(24):
+                k = rng.randint(2, 3)
+                pats = [rng.choice(rels) for _ in range(k)]
+                which = rng.randrange(k)
+                pats[which] = os.path.join(T.root, pats[which])
+                fv = Gm.GLOBSTAR | rng.choice([0, Gm.IGNORECASE, Gm.MARK, Gm.NOUNIQUE, Gm.BRACE])
+                n += 1
+                try:
+                    res = Gm.glob(pats, flags=fv, root_dir=T.root)
+                    singles = [Gm.glob(p, flags=fv, root_dir=T.root) for p in pats]
+                except Exception as e:
+                    ctx.counterexample('glob(%r) raised %s' % (pats, type(e).__name__), {'patterns': pats, 'tree': sp})
+                    continue
+                want = set(x for sres in singles for x in sres)
+                if set(res) != want:
+                    rel = [p.replace(T.root, '<root>') for p in pats]
+                    ctx.counterexample('glob(%r, %#x, root_dir=<root>): differs from the union of its single patterns; missing %r, extra %r' % (
+                        rel, fv, sorted(x.replace(T.root, '<root>') for x in want - set(res))[:4], sorted(x.replace(T.root, '<root>') for x in set(res) - want)[:4]),
+                        {'patterns': rel, 'flags': fv, 'tree': sp, 'absolute_index': which})
+    return n
